@@ -73,6 +73,14 @@ func leaves() []shape {
 		{name: "var-compound", body: func(string) []Stmt {
 			return []Stmt{Let{"c", "Int", a}, Asg{"c", "+=", lit(1)}, ExprS{v("c")}}
 		}},
+		// a closure literal followed by `return` (on the unchanged tree these bases are rejected: the known C12 defect
+		// seen from the other side; once repaired they enter the space)
+		{name: "closure-then-ret", body: func(string) []Stmt {
+			return []Stmt{Let{"f", "", clo(a)}, Let{"b", "", callfn(v("f"))}, Ret{bin("+", v("b"), lit(1))}}
+		}},
+		{name: "closure-param-then-ret", body: func(string) []Stmt {
+			return []Stmt{Let{"g", "", clo(bin("*", v("x"), lit(2)), pInt("x"))}, Ret{callfn(v("g"), a)}}
+		}},
 	}
 }
 
